@@ -22,6 +22,16 @@ STATED_BY = {"C04_F": ("C09", "changes only the UndirectedMultigraph edge-list c
                               "operator== on such objects (that is C01/C02/C07's verdict); C16, whose histories contain rejected forced insertions, reports it as well")}
 
 
+# a change whose demonstration shows behaviour that no property's statement rules out
+OUTSIDE_STATEMENT = {"C15_H": "the default index parser of loadTextEdgeList reads with stoul and casts to 32 bits, so the token 4294967296 becomes vertex 0 instead of "
+                              "being rejected. C15's statement for text is 'either returns a graph or throws an exception derived from std::exception' and never reads "
+                              "out of bounds or crashes; which graph is returned for an overflowing token is not stated ('never an edge pieced together' is the binary "
+                              "clause), and C13 speaks of well-formed files only. The demonstration therefore shows a change of unspecified behaviour and no check may "
+                              "report it. What the change also does - the token 2147483648, part of the malformed alphabet, now asks for 2^31+1 vertices - makes the "
+                              "sanitizer shards die in the allocator; each such death is re-qualified against the uninstrumented build (std::bad_alloc, allowed), the "
+                              "shards are abandoned after four of them and the run ends below its coverage floors: INCONCLUSIVE, exit 2, no VIOLATION line."}
+
+
 def confirmed(conf):
     return bool("0 tests failed" in conf and re.search(r"demo with patch: exit (?!0\b)", conf) and "demo without: exit 0" in conf)
 
@@ -53,7 +63,7 @@ def main():
     logs = parse_logs()
     kept = []
     for name, d in sorted(logs.items()):
-        m = re.match(r"(C\d+)_([A-F])$", name)
+        m = re.match(r"(C\d+)_([A-H])$", name)
         if not m:
             continue
         prop, var = m.groups()
@@ -82,6 +92,9 @@ def main():
             "silent": missed,
             "designated_check_catches_it": STATED_BY.get(name, (prop,))[0] in caught,
         }
+        meta["inconclusive"] = sorted(p for p, c in d["checks"].items() if c["exit"] == 2)
+        if name in OUTSIDE_STATEMENT:
+            meta["outside_every_statement"] = OUTSIDE_STATEMENT[name]
         if name in STATED_BY:
             meta["stated_by"] = {"property": STATED_BY[name][0], "why": STATED_BY[name][1]}
         with open(os.path.join(dst, "meta.json"), "w") as fh:
